@@ -109,6 +109,29 @@ class ProgGen:
         self.bump("set %s" % op)
         return "set var.v%d %s %s;\n" % (x, AOP_TEXT[op], o[0]), "(set %d %s %s)" % (x, op, o[1])
 
+    def set_concat(self):
+        """set var.x = a b + c ... ; : a concatenation series of 2-4 operands over the pool (any types) and literals"""
+        targets = [x for x, t in self.vars if t == "S"] or [x for x, t in self.vars]
+        if not targets or len(self.vars) < 2:
+            return self.declare()
+        x = self.rng.choice(targets) if self.rng.random() < 0.9 else self.rng.choice([y for y, _ in self.vars])
+        op = "add" if self.rng.random() < 0.25 else "set"
+        n = self.rng.randint(2, 4)
+        vcl, sx = "", []
+        for i in range(n):
+            explicit = i > 0 and self.rng.random() < 0.35
+            sg = "+" if explicit else "_"
+            if self.rng.random() < 0.4:
+                lit = self.rng.choice(STRS)
+                vcl += (" + " if explicit else " ") + '"%s"' % lit.decode()
+                sx.append('(%s (lit "%s"))' % (sg, lit.hex()))
+            else:
+                y, _ = self.rng.choice(self.vars)
+                vcl += (" + " if explicit else " ") + "var.v%d" % y
+                sx.append("(%s (var %d))" % (sg, y))
+        self.bump("set concat")
+        return "set var.v%d %s%s;\n" % (x, AOP_TEXT[op], vcl), "(setcat %d %s (%s))" % (x, op, " ".join(sx))
+
     def cond(self, depth):
         r = self.rng
         k = r.random()
@@ -169,6 +192,8 @@ class ProgGen:
         k = r.random()
         if k < 0.2 or len(self.vars) < 3:
             return self.declare()
+        if k < 0.3:
+            return self.set_concat()
         if k < 0.72 or depth <= 0:
             return self.set_stmt()
         if k < 0.9:
